@@ -134,7 +134,50 @@ def direct_sites():
                     self.generic_visit(node)
 
             V().visit(tree)
-    return out
+            out.extend(forwarded_sites(tree, rel, out))
+    return [o for o in out if o is not None and not (len(o) > 5 and o[5] == "forwarder")] + \
+           [o[:5] for o in out if o is not None and len(o) > 5 and o[5] == "forwarded"]
+
+
+def forwarded_sites(tree, rel, out):
+    """Extract-method refactorings: a method H of a class whose body hands one of its PARAMETERS on to
+    self.insert_element_before(param, *literal successors) (nothing else inserted) is a forwarder; every method
+    M of the same class that calls self.H(...) is the real insertion site (same literal successors), and the
+    forwarder itself is not a site.  One level only; anything else stays a site of its own."""
+    extra = []
+    for cls in [n for n in ast.walk(tree) if isinstance(n, ast.ClassDef)]:
+        methods = {m.name: m for m in cls.body if isinstance(m, ast.FunctionDef)}
+        for hname, h in methods.items():
+            params = [a.arg for a in h.args.args][1:]
+            calls = [c for c in ast.walk(h) if isinstance(c, ast.Call) and isinstance(c.func, ast.Attribute)
+                     and c.func.attr in ("insert_element_before", "addprevious", "addnext", "append", "insert", "replace")]
+            if len(calls) != 1 or not params:
+                continue
+            c = calls[0]
+            if c.func.attr != "insert_element_before" or ast.unparse(c.func.value) != "self" or not c.args:
+                continue
+            if not (isinstance(c.args[0], ast.Name) and c.args[0].id in params):
+                continue
+            if not all(isinstance(a, ast.Constant) and isinstance(a.value, str) for a in c.args[1:]):
+                continue
+            lits = [a.value for a in c.args[1:]]
+            callers = []
+            for mname, m in methods.items():
+                if mname == hname:
+                    continue
+                for c2 in ast.walk(m):
+                    if isinstance(c2, ast.Call) and isinstance(c2.func, ast.Attribute) and c2.func.attr == hname \
+                            and ast.unparse(c2.func.value) == "self":
+                        callers.append(mname)
+            if not callers:
+                continue
+            key = "%s.%s" % (cls.name, hname)
+            for i, o in enumerate(out):
+                if o is not None and o[0] == rel and o[1] == key and o[2] == "insert_element_before":
+                    out[i] = o + ("forwarder",)
+            for mname in sorted(set(callers)):
+                extra.append((rel, "%s.%s" % (cls.name, mname), "insert_element_before", "self", lits, "forwarded"))
+    return extra
 
 
 def pyranks(cm):
